@@ -14,10 +14,10 @@ type Elem struct {
 }
 
 // ParsePath parses the harness's path strings ("/a/b[k=v][k2=v2]/c"). Key values in the
-// workload never contain '/', '[', ']' or '='.
+// workload never contain '[' or ']'.
 func ParsePath(p string) []Elem {
 	var out []Elem
-	for _, part := range strings.Split(p, "/") {
+	for _, part := range splitOutsideBrackets(p) {
 		if part == "" {
 			continue
 		}
@@ -43,6 +43,33 @@ func ParsePath(p string) []Elem {
 		out = append(out, e)
 	}
 	return out
+}
+
+// splitOutsideBrackets splits on '/' that is not inside a [key=value] predicate, so key
+// values may contain '/', ':', '=', spaces ... (but not ']').
+func splitOutsideBrackets(p string) []string {
+	var out []string
+	depth := 0
+	cur := strings.Builder{}
+	for i := 0; i < len(p); i++ {
+		ch := p[i]
+		switch {
+		case ch == '[':
+			depth++
+			cur.WriteByte(ch)
+		case ch == ']':
+			if depth > 0 {
+				depth--
+			}
+			cur.WriteByte(ch)
+		case ch == '/' && depth == 0:
+			out = append(out, cur.String())
+			cur.Reset()
+		default:
+			cur.WriteByte(ch)
+		}
+	}
+	return append(out, cur.String())
 }
 
 // FormatPath is the inverse of ParsePath (keys sorted by name).
